@@ -619,15 +619,26 @@ fn c16(cli: &Cli) {
         let assignments: Vec<[bool; 3]> = (0..8u8).map(|m| [m & 1 != 0, m & 2 != 0, m & 4 != 0]).collect();
         let assignments: Vec<[bool; 3]> = if tier == Tier::Quick { assignments.into_iter().filter(|a| [[true, false, true], [false, true, false], [false, false, false], [true, true, false]].contains(a)).collect() } else { assignments };
         let mut wid = 5000;
-        for (ai, own) in assignments.iter().enumerate() {
+        // each table is built directly, and also by renewal: every member first announced itself in
+        // cluster 1 (resp. 2) and then again - same id and address, newer identity - in its final cluster
+        let cases: Vec<(usize, [bool; 3], Option<u16>)> =
+            assignments.iter().enumerate().flat_map(|(ai, own)| [None, Some(1u16), Some(2u16)].into_iter().map(move |prev| (ai, *own, prev))).collect();
+        for (ci, (ai, own, prev)) in cases.iter().enumerate() {
+            let (ai, own) = (*ai, own);
             {
                 let mut m = r.agent.members().write();
                 m.states.clear();
                 m.by_addr.clear();
                 m.rtts.clear();
                 for i in 0..3 {
+                    let id = ActorId::from_bytes([0x30 + i as u8 + (ai as u8) * 4 + (ci % 3) as u8 * 0x40; 16]);
+                    if let Some(prev) = prev {
+                        let former = Actor::new(id, listeners[i], klukai_types::broadcast::Timestamp::from(uhlc::HLC::default().new_timestamp()), ClusterId(*prev));
+                        m.add_member(&former);
+                        std::thread::sleep(Duration::from_millis(2));
+                    }
                     let actor = Actor::new(
-                        ActorId::from_bytes([0x30 + i as u8 + (ai as u8) * 4; 16]),
+                        id,
                         listeners[i],
                         klukai_types::broadcast::Timestamp::from(uhlc::HLC::default().new_timestamp()),
                         ClusterId(if own[i] { 1 } else { 2 }),
@@ -672,17 +683,17 @@ fn c16(cli: &Cli) {
                     if contacted {
                         rep.violation(
                             "C16:node-contacted-a-member-of-another-cluster",
-                            json!({"assignment(own cluster?)": own, "peer": i, "streams": after[i] - before[i]}),
+                            json!({"assignment(own cluster?)": own, "formerly_announced_cluster": prev, "peer": i, "streams": after[i] - before[i]}),
                         );
                     }
                 }
             }
             if own.iter().any(|o| *o) && !(0..3).any(|i| own[i] && after[i] > before[i]) {
-                rep.violation("C16:no-same-cluster-member-contacted", json!({"assignment(own cluster?)": own}));
+                rep.violation("C16:no-same-cluster-member-contacted", json!({"assignment(own cluster?)": own, "formerly_announced_cluster": prev}));
             }
-            rep.outcome(digest(&(own, after.iter().zip(before.iter()).map(|(a, b)| a > b).collect::<Vec<_>>())));
-            if ai == 1 {
-                rep.sample(json!({"membership": own, "streams_per_listener": after.iter().zip(before.iter()).map(|(a, b)| a - b).collect::<Vec<_>>()}));
+            rep.outcome(digest(&(own, prev, after.iter().zip(before.iter()).map(|(a, b)| a > b).collect::<Vec<_>>())));
+            if ci == 4 {
+                rep.sample(json!({"membership": own, "formerly_announced_cluster": prev, "streams_per_listener": after.iter().zip(before.iter()).map(|(a, b)| a - b).collect::<Vec<_>>()}));
             }
         }
         (evals, nontrivial)
@@ -696,7 +707,7 @@ fn c16(cli: &Cli) {
     rep.nontrivial_distinct_by_construction(nontrivial);
     rep.sample(json!({"path": "broadcast", "receiver_cluster": 1, "declared": null, "meaning": "frame ends before the cluster id; the receiver defaults it to 0"}));
     rep.set("bounds", json!({"receiver_cluster_ids": [0, 1, 2], "declared": ["absent", 0, 1, 2], "frame_orders": 2, "sync_declared": [0, 1, 2],
-        "run_time_switch": "1 -> 2 with frames on a connection opened before and on one opened after", "membership_assignments": tier.pick(4, 8)}));
+        "run_time_switch": "1 -> 2 with frames on a connection opened before and on one opened after", "membership_assignments": tier.pick(4, 8), "membership_built": ["directly", "by renewal from cluster 1", "by renewal from cluster 2"]}));
     rep.assume("full agents started through start_with_config over loopback QUIC (plaintext); a native frame in the same stream proves the stream was processed; negative observations on the pre-switch connection wait 700 ms");
     rep.assume("SWIM datagrams (foca) and TLS mode are not exercised");
     rep.require_nontrivial(20, "a case is non-trivial when the sender's effective cluster id differs from the receiver's (or the peer is in another cluster)");
